@@ -261,6 +261,27 @@ func c01Alphabet() []c01Op {
 			_, _ = c10Act(s, "rekey")
 			return nil
 		}},
+		{"raw-writes", func(s *Sys, i int) []string {
+			// the raw storage endpoint (operator tooling): whatever path it is given, the
+			// value must end up behind the barrier unless the path IS a bootstrap record
+			var cs []string
+			for j, path := range []string{
+				"rawtest/x" + fmt.Sprint(i),
+				"core/seal-config.bak",
+				"core/seal-config/x",
+				"namespaces/00000000-0000-0000-0000-000000000000/core/seal-config",
+				"namespaces/00000000-0000-0000-0000-000000000000/core/recovery-config",
+				"namespaces/7a3c1f0e-aaaa-bbbb-cccc-000000000001/core/seal-config",
+				"namespaces/7a3c1f0e-aaaa-bbbb-cccc-000000000001/logical/x",
+			} {
+				c := can(i, fmt.Sprintf("raw%d", j))
+				r, e := s.Req(s.Root, logical.UpdateOperation, "sys/raw/"+path, map[string]interface{}{"value": c})
+				if OK(r, e) {
+					cs = append(cs, c)
+				}
+			}
+			return cs
+		}},
 		{"leased-secret+login", func(s *Sys, i int) []string {
 			_, _ = s.Req(s.Root, logical.UpdateOperation, "sys/mounts/recl", map[string]interface{}{"type": "rec"})
 			_, _ = s.Req(s.Root, logical.UpdateOperation, "sys/auth/ral", map[string]interface{}{"type": "recauth"})
